@@ -195,7 +195,7 @@ def run(ctx: common.Ctx):
         'outside the stricter limit, header names an added record). non-trivial = pair with a non-empty '
         'difference')
     base = dict(vary=True, per_tx=(2, 7), max_size=6, window=24, witness=False, exception=None,
-                as_frac=0.3)
+                as_frac=0.3, junction_mnv=0.25)
     res = cv_checks.explore(ctx, ctx.n(130, 3000),
                             dict(base, variations=['misc', 'minlen', 'maxlen', 'minmw', 'sect', 'w2f', 'addvar', 'cno']))
     s1 = dict(ctx.coverage['worker_stats'])
